@@ -3190,7 +3190,7 @@ class FuncProcessLines(ValueFunc):
         else:
             raise CklRuntimeError(
                 ValueString("ERROR"),
-                "Cannot process lines from " + inparg.toString(),
+                "Cannot process lines from " + inparg.type(),
                 pos,
             )
 
